@@ -10,7 +10,7 @@ use crate::driver::{expected_obs, observe_response, RespObs};
 use crate::engine::{guarded, hex, show, unhex, Report, Tier, Violation};
 use crate::refmodel::head;
 
-pub const RULE: &str = "every head of the small-scope grammar: version {1.0,1.1} x status {101,200,204,299,301,302,304,307,399,404,500,999} x reason {none, empty, OK, 300-byte with obs-text} x all ordered field lists of length 0..=2 (thorough 0..=3) over a 15-entry pool (incl. a value with UTF-8 encoded Unicode white space at both ends and one with tabs inside) (repeated names, no OWS, OWS both sides, empty value, obs-text, Location, Content-Length, Set-Cookie, Transfer-Encoding: chunked, two Connection spellings) plus heads with 0,1,127,128 (accepted) and 129,130,200 (rejected) fields; for every head EVERY prefix length and the head followed by {1 byte, garbage, a second response, a stray CRLF, CRLF CRLF and a response}; entry points Flow::try_response (GET flow, HEAD flow, POST flow with Expect: 100-continue whose caller gave up waiting, and the same flow after try_read_100 took the same window as a refusal and the body was skipped), Call::try_response, parser::try_parse_response::<128>; each prefix on a fresh object AND all prefixes in growing order on one object followed by the complete head. distinct = distinct (head, entry point) pairs whose every prefix was checked";
+pub const RULE: &str = "every head of the small-scope grammar: version {1.0,1.1} x status {101,200,204,299,301,302,304,307,399,404,500,999} x reason {none, empty, OK, 300-byte with obs-text} x all ordered field lists of length 0..=2 (thorough 0..=3) over a 15-entry pool (incl. a value with UTF-8 encoded Unicode white space at both ends and one with tabs inside) (repeated names, no OWS, OWS both sides, empty value, obs-text, Location, Content-Length, Set-Cookie, Transfer-Encoding: chunked, two Connection spellings) plus heads with 0,1,127,128 (accepted) and 129,130,200 (rejected) fields; for every head EVERY prefix length and the head followed by {1 byte, garbage, a second response, a stray CRLF, CRLF CRLF and a response}; entry points Flow::try_response (GET flow, HEAD flow, POST flow with Expect: 100-continue whose caller gave up waiting, and the same flow after try_read_100 took the same window as a refusal and the body was skipped), Call::try_response, parser::try_parse_response::<128>; each prefix on a fresh object AND all prefixes in growing order on one object followed by the complete head. plus call sequences: equal-length prefixes of two different heads offered one after the other, from the same buffer, to different entry points, with the library's logging off and at level Trace. distinct = distinct (head, entry point) pairs whose every prefix was checked";
 
 const FRONTS: [&str; 6] = ["flow-GET", "flow-HEAD", "call", "parser", "flow-POST-expect", "flow-POST-refused"];
 
@@ -25,6 +25,10 @@ enum Out {
 }
 
 fn call_front(front: &str, bases: &Bases, input: &[u8]) -> Result<(Out, bool), String> {
+    crate::engine::with_aliased(input, |input| call_front_at(front, bases, input))
+}
+
+fn call_front_at(front: &str, bases: &Bases, input: &[u8]) -> Result<(Out, bool), String> {
     // returns (outcome, side-condition ok: not ready & state unchanged when NeedMore)
     match front {
         "flow-GET" | "flow-HEAD" | "flow-POST-expect" => {
@@ -197,13 +201,13 @@ fn incremental(h: &[u8], front: &str, bases: &Bases) -> Option<(String, String, 
         for p in 0..=h.len() {
             let input = &h[..p];
             let (resp_n, is_err): (Option<usize>, Option<String>) = if let Some(f) = flow.as_mut() {
-                match f.try_response(input) {
+                match crate::engine::with_aliased(input, |i| f.try_response(i)) {
                     Ok((n, Some(_))) => (Some(n), None),
                     Ok((_, None)) => (None, None),
                     Err(e) => (None, Some(format!("{:?}", e))),
                 }
             } else {
-                match call.as_mut().unwrap().try_response(input) {
+                match crate::engine::with_aliased(input, |i| call.as_mut().unwrap().try_response(i)) {
                     Ok(Some((n, _))) => (Some(n), None),
                     Ok(None) => (None, None),
                     Err(e) => (None, Some(format!("{:?}", e))),
@@ -232,6 +236,55 @@ fn incremental(h: &[u8], front: &str, bases: &Bases) -> Option<(String, String, 
         Ok(x) => x,
         Err(pn) => Some((format!("C05:panic:{}:{}", front, crate::engine::panic_site(&pn)), pn, 0)),
     }
+}
+
+
+/// Sequences that could only matter if something were carried over between calls or shared between
+/// objects on the thread: (1) inputs of equal length at the same address but with different content,
+/// offered one after the other to DIFFERENT objects - a strict prefix of head A, then the same-length
+/// prefix (or the whole) of head B; (2) the same cells with the library's logging at level Trace.
+fn call_sequences(rep: &mut Report) {
+    let lr = long_reason();
+    let mut fam: Vec<(Vec<u8>, usize)> = Vec::new();
+    for (v, s, r, fields) in [
+        ("1.1", 200u16, Some(&b"OK"[..]), vec![]),
+        ("1.1", 200, Some(&b"OK"[..]), vec![FIELD_POOL[1]]),
+        ("1.0", 302, Some(&b"Found"[..]), vec![FIELD_POOL[7], FIELD_POOL[8]]),
+        ("1.1", 404, None, vec![FIELD_POOL[2], FIELD_POOL[3], FIELD_POOL[4], FIELD_POOL[5]]),
+        ("1.1", 999, Some(&b""[..]), vec![FIELD_POOL[6]]),
+        ("1.1", 204, Some(&lr[..40]), vec![]),
+        ("1.0", 600, Some(&b"Odd"[..]), vec![FIELD_POOL[10]]),
+    ] {
+        fam.push((head(&status_line(v, s, r), &fields), fields.len()));
+    }
+    let b = bases();
+    let mut cells = 0u64;
+    for logging_on in [false, true] {
+        crate::engine::logging(logging_on);
+        for (ha, fa) in &fam {
+            for (hb, fb) in &fam {
+                if ha == hb {
+                    continue;
+                }
+                for l in 1..=hb.len().min(ha.len() - 1) {
+                    for (f1, f2) in [("flow-GET", "flow-GET"), ("flow-GET", "call"), ("parser", "flow-HEAD"), ("call", "parser"), ("flow-POST-expect", "flow-GET")] {
+                        cells += 2;
+                        for (front, h, nf) in [(f1, ha, fa), (f2, hb, fb)] {
+                            if let Some((key, what)) = check_cell(h, *nf, front, &b, l, b"") {
+                                if key.starts_with("C05:prefix-3xx-after-location-accepted") {
+                                    continue; // KF1, reported by the sweep
+                                }
+                                rep.violation(Violation { key: format!("{}:in-sequence", key), ord: 99_000_000, what: format!("{} [a {}-byte prefix of one head to {}, then the first {} bytes of another head to {}, same buffer; logging {}]", what, l, f1, l, f2, if logging_on { "on" } else { "off" }), replay: json!({"kind": "sequences"}) });
+                            }
+                        }
+                    }
+                }
+            }
+        }
+    }
+    crate::engine::logging(false);
+    rep.evaluations += cells;
+    rep.extra("sequence_cells", json!(cells));
 }
 
 const TAILS: [&[u8]; 6] = [b"", b"X", b"garbage\x00\xff\r\n\r\n", b"HTTP/1.1 200 OK\r\nContent-Length: 0\r\n\r\n", b"\r\n", b"\r\n\r\nHTTP/1.1 200 OK\r\n\r\n"];
@@ -351,6 +404,7 @@ pub fn run(tier: Tier) -> Report {
         rep.merge(p);
     }
     rep.guard("some head exceeds the field limit", false);
+    call_sequences(&mut rep);
     let refused = REFUSED_CELLS.load(std::sync::atomic::Ordering::Relaxed);
     rep.guard("windows decided as refusal by the Expect handshake were offered to try_response", refused > 1000);
     rep.extra("refused_front_cells", json!(refused));
@@ -359,6 +413,11 @@ pub fn run(tier: Tier) -> Report {
 }
 
 pub fn replay(v: &Value) -> Result<Option<String>, String> {
+    if v["kind"].as_str() == Some("sequences") {
+        let mut r = Report::new();
+        call_sequences(&mut r);
+        return Ok(r.violations.into_iter().next().map(|(k, (_, v))| format!("[{}] {}", k, v.what)));
+    }
     let h = unhex(v["head"].as_str().ok_or("head")?);
     let tail = unhex(v["tail"].as_str().unwrap_or(""));
     let p = v["p"].as_u64().ok_or("p")? as usize;
